@@ -275,6 +275,12 @@ def one_iso_finder(res, drv, rng, A, cfg):
         return
     res.nontrivial("iso_finder", inp["adj"], str(cfg))
     # ---- model
+    if n <= 1 and not rejected:
+        # region of known finding D43 (the model mirrors the ValueError): the implementation now returns and the oracle
+        # holds — noted, no alarm (DESIGN §6)
+        if K_ISO_N1 not in res.known_gone:
+            res.known_gone.append(K_ISO_N1)
+        return
     if rep["_status"] != "ok":
         res.exact_break("graph.isofinder", input=inp, impl=f"ok {len(got)} matrices", model=rep["_raw"][:200])
         return
